@@ -152,8 +152,11 @@ impl<'a> Lexer<'a> {
         let mut pos = self.skip_whitespace(self.pos)?;
         while self.buf.get(pos) == Some(&b'%') {
             pos += 1;
-            if let Some(off) = self.buf[pos..].iter().position(|&b| b == b'\n') {
-                pos += off+1;
+            // a comment ends at the next end-of-line marker (CR or LF) ...
+            match self.buf[pos..].iter().position(|&b| b == b'\n' || b == b'\r') {
+                Some(off) => pos += off+1,
+                // ... or at the end of the buffer
+                None => return Err(PdfError::EOF)
             }
             
             // Move away from eventual whitespace
